@@ -10,6 +10,8 @@ use std::{
 
 use noodles_sam as sam;
 
+#[cfg(noodles_verif)]
+pub use self::block::itf8_size_of;
 pub use self::{
     block::{Block, write_block},
     header::write_header,
